@@ -101,9 +101,9 @@ func cmdCheck(prop, tier string) int {
 	if s := os.Getenv("VERIF_SEED"); s != "" {
 		seed, _ = strconv.Atoi(s)
 	}
-	cfg := runCfg{tier: tier, timeoutMs: 120000, jobs: 5}
+	cfg := runCfg{tier: tier, timeoutMs: 240000, jobs: 5}
 	if tier == "thorough" {
-		cfg.timeoutMs = 300000
+		cfg.timeoutMs = 600000
 		cfg.allSolver = true
 		cfg.jobs = 5
 	}
